@@ -11,13 +11,16 @@ LEVEL_TEXT = (
     'field (notes, control_changes, pitch_bends, text_annotations, tempos, time_signatures, key_signatures) in storage '
     'order has an order-insensitive body (own-element writes, bag accumulation, commutative reductions, idempotent constant '
     'stores, find-unique), every order-sensitive consumer iterates a sequence sorted by a time/step key, and no positional '
-    'read ([0], [-1], [i], slices) is applied to storage-ordered data. Sound up to ties between equal sort keys and '
-    'floating-point summation order (both excluded by the property\'s precondition / not claimed). This decides the '
+    'read ([0], [-1], [i], slices) is applied to storage-ordered data. Ties among NOTES that are equal in a sort key '
+    '(stable sorts visit them in storage order) are decided too: the note fields the consumer uses order-sensitively '
+    '(carried state, first-wins / emit-on-change regions, last-writer-wins stores, values packed together with carried state) '
+    'must be ordered by the key, be address-only, or be in a triaged table with a reason. Ties among coinciding state events '
+    'of one kind (two tempos at one instant) and floating-point summation order are not claimed. This decides the '
     'structural necessary condition for permutation invariance for all inputs and all permutations, which sampling cannot.')
 LEVEL_NOTE = ('Trusted: PrettyMIDI.write sorts track events (bag accumulation into pm.* lists is order-insensitive); a relative-'
               'quantized NoteSequence carries exactly one time signature and tempo (single writer of quantization_info checked '
               'on every run); allow-list rows each carry a structural precondition that is re-checked on every run.')
-TECHNIQUE = 'static analysis: provenance (storage/sorted) def-use analysis of iterables + loop-body effect classification with liveness (loop-carried state), over the AST'
+TECHNIQUE = 'static analysis: provenance (storage/sorted) def-use analysis of iterables + loop-body effect classification with liveness (loop-carried state) + sort-key tie analysis (key fields vs order-sensitive reads), over the AST'
 DESIGN_REF = 'DESIGN.md sections 3.2 and 4 (C12)'
 EXPLANATION = (
     'ORD analysis over 27 functions of 7 modules. For each: provenance of every iterated or subscripted expression '
@@ -26,10 +29,15 @@ EXPLANATION = (
     'effects (stores into shared objects, loop-carried variables decided by liveness, break/return, calls on objects the loop '
     'also mutates); positional reads of STORAGE values are violations unless an allow-list row with a re-checked structural '
     'precondition applies. A function of the scope modules with a NoteSequence parameter that is in neither the scope table '
-    'nor the out-of-scope table is an analysis error (fail closed).')
+    'nor the out-of-scope table is an analysis error (fail closed). TIE (sa/ties.py): for each of the 9 sorted(<notes>, key=...) '
+    'sites the key fields (closed under start_time -> quantized_start_step etc.) are compared with the note fields read in '
+    'order-sensitive positions of the consumer loop; the residual must be empty, address-only (subscript only), or listed in '
+    'TIE_ALLOW with the reason confirmed by reading.')
 TRUSTED = ['PrettyMIDI.write sorts events of each track; pm.<list>.append is a bag accumulation',
-           'ties among equal time keys are outside the property (its precondition excludes coinciding same-kind events)']
-NOT_DECIDED = ['behaviour for ties between equal sort keys', 'floating-point summation order']
+           'quantization is monotone, so a key ordering by start_time also orders by quantized_start_step (same for end_time, time)']
+NOT_DECIDED = ['ties between coinciding state events of one kind (two tempos / time signatures / control changes of one number at the same instant): which is "in force" is not defined by the property',
+               'overlapping paints of tied duplicate notes of different lengths in the frame rolls are accepted by the TIE_ALLOW table (reason recorded), not derived',
+               'floating-point summation order']
 ASSUMPTIONS = ['quantized inputs of extractors were produced by quantize_note_sequence (single writer of quantization_info, checked)']
 FLOORS = {'ORD/traversal': 30, 'ORD/sorted-traversal': 14, 'ORD/positional': 10, 'TIE/note-sort': 10}
 
